@@ -14,7 +14,7 @@ package main
 //	lower_t(u) = (u mod t) + 2t*(u div t)     upper_t(u) = lower_t(u) + t
 //	group_t(u) = u div t                      or a constant
 //
-// (t = 8: lower = u, upper = u + 8, group = 0).  The mirrored first layer of the conjugate-invariant
+// (t = 8: lower = u, upper = u + 8, group = 0; the units may be written down in any order).  The mirrored first layer of the conjugate-invariant
 // transform is a run of seven units whose indices are u, 6-u or constant.  A wrong index in one lane, a lane that is missing or
 // repeated, or a twiddle factor taken from the wrong group breaks the pattern.  It says nothing about
 // WHAT a lane computes: the butterflies themselves are under arithmetic contracts.
@@ -198,6 +198,41 @@ func checkUnrolled(prog *Program, sp *UnrolledSpec) []simpleObligation {
 								}
 								vecs = append(vecs, v)
 							}
+						}
+						// the order in which the lanes are written down does not matter: put the units in
+						// the order of the first index position that distinguishes them
+						for _, key := range vecs {
+							distinct := true
+							for a := 0; a < n && distinct; a++ {
+								for b := a + 1; b < n; b++ {
+									if key[a] == key[b] {
+										distinct = false
+										break
+									}
+								}
+							}
+							if !distinct {
+								continue
+							}
+							perm := make([]int, n)
+							for a := range perm {
+								perm[a] = a
+							}
+							for a := 0; a < n; a++ {
+								for b := a + 1; b < n; b++ {
+									if key[perm[b]] < key[perm[a]] {
+										perm[a], perm[b] = perm[b], perm[a]
+									}
+								}
+							}
+							for vi := range vecs {
+								var nv [8]int64
+								for a := 0; a < n; a++ {
+									nv[a] = vecs[vi][perm[a]]
+								}
+								vecs[vi] = nv
+							}
+							break
 						}
 						fits := func(t int64) bool {
 							for _, v := range vecs {
